@@ -48,4 +48,23 @@ structure StepEv where
 def check (name : String) (nontrivial : Bool) (ok : Bool) : Verdict :=
   if ok then .pass nontrivial else .fail name
 
+/-- the tail of `feed_str` / `resize` applied to a terminal: `changes()` then `gc()` -/
+def finishT (t : Terminal) : Terminal := (Terminal.gc (Terminal.changes t).1).1
+
+/-- the changed-line list a call returns when it ends in terminal `t` (before `changes()` clears it) -/
+def reportedOf (t : Terminal) : List Nat := Dirty.toVec t.dirtyLines
+
+/-- does this kind of call end with `changes()` + `gc()`? (`Vt::feed` does not) -/
+def Kind.finishes : Kind → Bool
+  | .feedChars => false
+  | _ => true
+
+/-- what the implementation's state must be after a call whose function-level effect is `t` -/
+def afterCall (k : Kind) (t : Terminal) : Terminal := if k.finishes then finishT t else t
+
+/-- fold a partial specification over a function list; `none` as soon as one is not covered -/
+def foldSpec (spec : Terminal → Function → Option Terminal) : List Function → Terminal → Option Terminal
+  | [], t => some t
+  | f :: fs, t => match spec t f with | some t' => foldSpec spec fs t' | none => none
+
 end Avt.Spec
